@@ -31,6 +31,7 @@ QUICK = [
     ('split_orderbook_last', dict(T=4, ob_last=True, orders=((0, 1, 2.0), (2, 4, -1.5), (3, 4, 1.0))), '2h', 'A'),
     ('last_asset_outside_horizon', dict(T=3, wins=((0, 3), (1, 3), (6, 8))), None, 'B'),
     ('last_asset_outside_horizon_split', dict(T=4, wins=((0, 4), (1, 3), (6, 8))), '2h', 'A'),
+    ('scaled_periodic_base', dict(T=5, base='periodic_contract'), None, 'B'),
     ('split_structured', dict(T=4), '2h', 'A'),
     ('split_scaled_storage', dict(T=4, base='storage'), '2h', 'A'),
 ]
@@ -48,7 +49,7 @@ THOROUGH = QUICK + [
     ('split_orderbook', dict(T=4, orders=((0, 1, 2.0), (2, 4, -1.5), (1, 2, 1.0))), '2h', 'A'),
     ('split_T6_day_unit', dict(T=6, freq='8h', unit='d', wacc=True), 'd', 'A'),
 ]
-SHAPE_OF = dict(c01.SHAPE_OF, last_asset_outside_horizon='windows', last_asset_outside_horizon_split='windows', split_orderbook_last='orderbook', contract_storage_win='contract_storage', orderbook_outside='orderbook',
+SHAPE_OF = dict(c01.SHAPE_OF, scaled_periodic_base='scaled', last_asset_outside_horizon='windows', last_asset_outside_horizon_split='windows', split_orderbook_last='orderbook', contract_storage_win='contract_storage', orderbook_outside='orderbook',
                 two_node_T4_2n='two_node', chp='plant', scaled_take='scaled', split_T6_day_unit='two_node',
                 periodic_transport_dur='periodic')
 GRIDV_QUICK = [('two_node', 'day_d_cet_dst'), ('contract_storage_win', 'month_d'), ('plant_fuel', 'quarter_min'),
